@@ -131,7 +131,8 @@ def run(ctx):
              lambda e: e.update(g_subject="x", r_subject="x"), True)
     cov = {
         "states": states, "transitions": trans,
-        "traces_validated_against_impl": len(logs),
+        "traces_validated_against_impl": nlines - sum(len(r[0]) for r in results),
+        "log_files": len(logs),
         "samples": [edits[0], fetches[0]],
         "evaluations": nlines,
         "distinct_nontrivial": len(edits) + len(fetches),
